@@ -12,7 +12,7 @@ import (
 )
 
 var profile = storesim.Profile{
-	Name: "C10", WWrite: 26, WBig: 3, WSnapshot: 14, WCompact: 10, WCompactFiles: 5, WBurst: 4,
+	Name: "C10", WWrite: 26, WBig: 3, WSnapshot: 14, WCompact: 10, WCompactFiles: 5, WBurst: 4, WStagger: 5,
 	WDelete: 18, WDropSeries: 6, WDropMeas: 4, WReopen: 6, WRead: 2,
 	Windows: true, CheckReads: true, CheckListing: true, MaxOps: 40, MaxShards: 2,
 }
